@@ -258,13 +258,10 @@ impl MainEvent {
             match MainEventBankName::try_from(bank_name)? {
                 MainEventBankName::Alpha16(Alpha16BankName::A32(bank_name)) => {
                     let packet = AdcPacket::try_from(data_slice)?;
-                    let waveform = packet.waveform();
-                    if waveform.is_empty() {
-                        continue;
-                    }
-                    // Given that the waveform is not empty, we can safely
-                    // unwrap.
-                    let board_id = packet.board_id().unwrap();
+                    // A fully suppressed packet (empty waveform) does not carry
+                    // a board id; only its channel can be compared against
+                    // the bank name.
+                    let board_id = packet.board_id().unwrap_or(bank_name.board_id());
                     let alpha16::ChannelId::A32(channel_id) = packet.channel_id() else {
                         return Err(TryMainEventFromDataBanksError::WireBankWithBvChannel {
                             bank_name,
@@ -275,6 +272,10 @@ impl MainEvent {
                             expected: (bank_name.board_id(), bank_name.channel_id()),
                             found: (board_id, channel_id),
                         });
+                    }
+                    let waveform = packet.waveform();
+                    if waveform.is_empty() {
+                        continue;
                     }
 
                     let wire_position = TpcWirePosition::try_new(run_number, board_id, channel_id)?;
